@@ -47,6 +47,9 @@ CHECKS = {
  "C15": dict(level="exploration", family="scrubplan", ref="6.13",
    technique="deterministic simulation: the clock is owned by the simulator, per-stripe ages come from history; the verified set is read off the io.c hand-over trace; plan predicates and bookkeeping checked against the decoded content",
    text="Per-stripe check times are produced by syncs and scrubs at chosen simulated times (ties, 8 s granularity, backward clock steps), bad marks by injected silent errors, unsynced stripes by files changed after the sync. For every plan the set of verified stripes (from the trace, not from scrub's report) must satisfy the plan predicates, and the decoded content afterwards must show time refreshed / marks cleared exactly on stripes verified correct, bad exactly on silent errors, everything else untouched; 13 default scrubs 11 simulated days apart must cover a synced array."),
+ "C20": dict(level="exploration", family="views", ref="6.17",
+   technique="deterministic simulation: recorded states from simulated histories with arbitrary-byte names, duplicate groups and pre-populated pool directories; reference model (decoded content + harness file copies) vs parsed tool output",
+   text="On recorded states reached by seeded histories, list, status (counters, per-stripe dump, named files), dup and pool are compared with a reference computed from the independently decoded content file and the harness copy of the file contents: exact file/link sets with names inverted through the tag escaping, exact duplicate partition, exact pool tree (one link per recorded entry, first disk wins, stale links and empty dirs gone, foreign files kept)."),
 }
 NA = [
  ("C02", "pure function of (nd, np, size, buffers, variant): no schedule, clock, fault, crash point or history for a simulator to own"),
